@@ -64,6 +64,11 @@ func genC09(tier string) []*Scenario {
 	for _, tw := range twins {
 		add(CacheCfg{Twin: tw}, durNoExp)                                                     // New(): defaults only
 		add(CacheCfg{Twin: tw, HasIvl: true, Ivl: -5, HasMinCap: true, MinCap: -3}, durNoExp) // negative interval / capacity are normalised
+		// the same option twice: the later occurrence wins, whatever the earlier one said
+		for _, d := range []time.Duration{durNoExp, 0, 2} {
+			add(CacheCfg{Twin: tw, Earlier: true, EarlierDef: time.Hour, EarlierIvl: -1, HasDef: true, Def: d, HasIvl: true, Ivl: 0}, normDef(d))
+		}
+		add(CacheCfg{Twin: tw, Earlier: true, EarlierDef: durNoExp, EarlierIvl: -1, HasDef: true, Def: time.Hour, HasIvl: true, Ivl: 0}, time.Hour)
 		for _, d := range []time.Duration{durNoExp, durDef, -1, 0, 1, 2, time.Hour} {
 			add(CacheCfg{Twin: tw, HasDef: true, Def: d}, normDef(d))
 			add(CacheCfg{Twin: tw, UseDefault: true, Def: d, Ivl: 0}, normDef(d))
